@@ -235,6 +235,31 @@ class _Canon(ast.NodeTransformer):
         ast.fix_missing_locations(new)
         return new
 
+    def visit_FunctionDef(self, n: ast.FunctionDef):
+        stack = self.__dict__.setdefault("_fn_stack", [])
+        counts: dict = {}
+        for x in ast.walk(n):
+            if isinstance(x, ast.Name):
+                c = counts.setdefault(x.id, [0, 0])
+                c[0 if isinstance(x.ctx, ast.Load) else 1] += 1
+            elif isinstance(x, (ast.Global, ast.Nonlocal)):
+                for nm in x.names:
+                    counts.setdefault(nm, [0, 0])[1] += 5
+        stack.append(counts)
+        try:
+            return self.generic_visit(n)
+        finally:
+            stack.pop()
+
+    def _single_use_temp(self, name: str, test: ast.AST) -> bool:
+        stack = self.__dict__.get("_fn_stack") or []
+        if not stack:
+            return False
+        loads, stores = stack[-1].get(name, [0, 0])
+        if loads != 1 or stores != 1:
+            return False
+        return sum(1 for x in ast.walk(test) if isinstance(x, ast.Name) and x.id == name and isinstance(x.ctx, ast.Load)) == 1
+
     def generic_visit(self, node):
         if isinstance(node, ast.If) and len(node.orelse) == 1 and isinstance(node.orelse[0], ast.If):
             node.orelse[0]._is_elif = True      # type: ignore[attr-defined]
@@ -252,6 +277,33 @@ class _Canon(ast.NodeTransformer):
                     else:
                         nb.append(b[i])
                         i += 1
+                if len(nb) != len(b):
+                    setattr(node, fld, nb)
+        for fld in ("body", "orelse", "finalbody"):
+            b = getattr(node, fld, None)
+            if isinstance(b, list) and len(b) > 1 and isinstance(b[0], ast.stmt):
+                # a temporary that only names (part of) the condition of the `if` that follows it is that condition:
+                # `n = len(xs)` / `if n != 1:`  ==  `if len(xs) != 1:`   (assigned once, read once -- in that test)
+                i, nb = 0, []
+                while i < len(b):
+                    st = b[i]
+                    nxt = b[i + 1] if i + 1 < len(b) else None
+                    if isinstance(st, ast.Assign) and len(st.targets) == 1 and isinstance(st.targets[0], ast.Name) and isinstance(nxt, ast.If) \
+                            and self._single_use_temp(st.targets[0].id, nxt.test):
+                        name = st.targets[0].id
+
+                        class _Sub(ast.NodeTransformer):
+                            def visit_Name(self2, n):
+                                if n.id == name and isinstance(n.ctx, ast.Load):
+                                    return ast.copy_location(copy.deepcopy(st.value), n)
+                                return n
+                        nxt.test = _Sub().visit(nxt.test)
+                        if isinstance(nxt.test, ast.Compare):
+                            nxt.test = self.visit_Compare(nxt.test)
+                        i += 1
+                        continue
+                    nb.append(st)
+                    i += 1
                 if len(nb) != len(b):
                     setattr(node, fld, nb)
         for fld in ("body", "orelse", "finalbody"):
